@@ -197,7 +197,10 @@ func build(r *mon.Run, i int, ids map[string]*gen.Identity) *scenario {
 			r.HarnessFail("UpdateSignatures: %v", err)
 			return nil
 		}
-		b.Signatures = sigs
+		if b.Signatures == nil || s%2 == 0 {
+			b.Signatures = sigs
+		}
+		// (otherwise the caller relies on what the method's name and doc comment say: it UPDATES the Signatures it was given)
 	}
 	for _, e := range b.Exchanges {
 		o := sc.orig[e.Request.URL.String()]
